@@ -96,3 +96,11 @@ chk('C03', 'exploration',
     'found and every absent one rejected, counts must equal the true length - with the shared stream repositioned between calls.',
     'Hash builders follow the gABI/glibc algorithms; the GNU ld spelling of an empty GNU table is an open finding (KNOWN_FINDINGS.json).',
     'ground-truth generator oracle with engineered collisions + stream poisoning', 'DESIGN.md section 4 C03')
+chk('C08', 'exploration',
+    'Ground truth for REL/RELA/MIPS64 tables (section and dynamic views) and a reference RELR expander; for application, a psABI model '
+    'with my own recipe table over every supported (machine, type) pair x class x byte order with random symbol values, addends, in-place '
+    'values, unaligned/last offsets and several relocations on one field: the whole relocated stream must equal the model and be '
+    'untouched with relocation off; the four rejection classes must raise ELFRelocationError. The model is compared with `readelf -R` on '
+    'a sample in every run (fields readelf leaves unrelocated give no information).',
+    'psABI formulas transcribed per type; P = offset in the section; R_ARM_CALL/BPF outside the quantifier.',
+    'reference-model oracle (psABI formulas, RELR expander) cross-validated against GNU readelf -R', 'DESIGN.md section 4 C08')
